@@ -107,11 +107,9 @@ impl Memory {
     ) {
         let offset = offset.constant_fold();
         let store_value = MemStore { data: value, size };
-        let entry = match offset.data() {
-            RSVD::KnownData { value } => {
-                self.constant_offsets.entry(value.into()).or_insert(vec![])
-            }
-            _ => self.symbolic_offsets.entry(offset).or_insert(vec![]),
+        let entry = match Self::constant_index(&offset) {
+            Some(index) => self.constant_offsets.entry(index).or_insert(vec![]),
+            None => self.symbolic_offsets.entry(offset).or_insert(vec![]),
         };
 
         entry.push(store_value);
@@ -130,11 +128,9 @@ impl Memory {
     #[must_use]
     pub fn load(&mut self, offset: &RuntimeBoxedVal) -> RuntimeBoxedVal {
         let offset = offset.constant_fold();
-        match offset.data() {
-            RSVD::KnownData { value } => {
-                Self::get_or_initialize(&mut self.constant_offsets, &value.into()).clone()
-            }
-            _ => Self::get_or_initialize(&mut self.symbolic_offsets, &offset).clone(),
+        match Self::constant_index(&offset) {
+            Some(index) => Self::get_or_initialize(&mut self.constant_offsets, &index).clone(),
+            None => Self::get_or_initialize(&mut self.symbolic_offsets, &offset).clone(),
         }
     }
 
@@ -159,10 +155,9 @@ impl Memory {
         instruction_pointer: u32,
     ) -> RuntimeBoxedVal {
         let offset = offset.constant_fold();
-        match offset.data() {
-            RSVD::KnownData { value } => match Self::decompose_size(size) {
+        match Self::constant_index(&offset) {
+            Some(offset) => match Self::decompose_size(size) {
                 Some(size) => {
-                    let offset: usize = value.into();
                     let mut values = vec![];
                     let bounded_size = size.min(self.max_single_operation_bytes);
 
@@ -186,14 +181,29 @@ impl Memory {
                 None => {
                     // If there is no concrete size, we do our best and just return the direct value
                     // at `offset`.
-                    Self::get_or_initialize(&mut self.constant_offsets, &value.into()).clone()
+                    Self::get_or_initialize(&mut self.constant_offsets, &offset).clone()
                 }
             },
-            _ => {
+            None => {
                 // Here we just do our best and return the single value as we don't track
                 // adjacency between symbolic values yet.
                 Self::get_or_initialize(&mut self.symbolic_offsets, &offset).clone()
             }
+        }
+    }
+
+    /// Gets the index of a constant `offset` into the constant portion of the
+    /// memory.
+    ///
+    /// Offsets are chosen by the bytecode and may be any 256-bit word. One that
+    /// does not fit the host's index type is not narrowed onto a smaller
+    /// offset (which would make two distinct locations share their contents),
+    /// but is tracked like a symbolic offset instead.
+    #[must_use]
+    fn constant_index(offset: &RuntimeBoxedVal) -> Option<usize> {
+        match offset.data() {
+            RSVD::KnownData { value } => usize::try_from(value.value_le()).ok(),
+            _ => None,
         }
     }
 
